@@ -1,12 +1,13 @@
 /- Line-protocol driver for the C05 model (ForML.Model.Fs, ForML.Model.Registry).
 
   request   (run <impl> (<step> ...) <crash>)
-    impl    inplace | staged
+    impl    (impl <staged: true|false> <keyFirst: true|false>)
     step    (publish <dirProj> <name> <version> (file (<byte> ...)))
             (publish <dirProj> <name> <version> (dir ((<i> (<byte> ...)) ...)))
             (train <proj> <version> <ordinal> ((<sid> (<byte> ...)) ...))
     crash   none | (<step index> <completed atomic micro-ops of that step> none|<bytes of the next append>)
-  answer    (ok (<outcome> ...) (<fact> ...))      outcomes of the fully executed steps, view of the final tree
+  answer    (ok (<outcome> ...) (<fact> ...) <wf>)  outcomes of the fully executed steps, view of the final tree,
+            whether the final model tree is well formed (Fs.WF, the hypothesis of the publish theorem)
     outcome (ok (<call> ...)) | (err invalid|mismatch|os (<call> ...))      call = (<op> ...)
     fact    (rel p v <node>) (member p v i <node>) (gen p v g (ok ord (sid ...))|corrupt) (state p v g sid <node>|missing)
 -/
@@ -33,9 +34,13 @@ def step? : Sexp → Option Step
     pure (.train (← p.nat?) (← v.nat?) (← o.nat?) (← sts.mapM member?))
   | _ => none
 
+def bool? : Sexp → Option Bool
+  | .atom "true" => some true
+  | .atom "false" => some false
+  | _ => none
+
 def impl? : Sexp → Option Impl
-  | .atom "inplace" => some .inplace
-  | .atom "staged" => some .staged
+  | .list [.atom "impl", s, k] => do pure ⟨← bool? s, ← bool? k⟩
   | _ => none
 
 def crash? : Sexp → Option (Option (Nat × Nat × Option Nat))
@@ -101,14 +106,14 @@ def stepC05 : Sexp → Sexp
     match impl? im, steps.mapM step?, crash? cr with
     | some impl, some steps, some none =>
       let r := execAll impl Fs.empty steps
-      .list [.atom "ok", .list (r.2.map outcomeS), .list (factsOf r.1)]
+      .list [.atom "ok", .list (r.2.map outcomeS), .list (factsOf r.1), Sexp.ofBool (decide (WF r.1))]
     | some impl, some steps, some (some (i, k, cut)) =>
       match steps[i]? with
       | none => .atom "bad-op"
       | some s =>
         let r := execAll impl Fs.empty (steps.take i)
         let fs := crashIn impl r.1 s k cut
-        .list [.atom "ok", .list (r.2.map outcomeS), .list (factsOf fs)]
+        .list [.atom "ok", .list (r.2.map outcomeS), .list (factsOf fs), Sexp.ofBool (decide (WF fs))]
     | _, _, _ => .atom "bad-op"
   | _ => .atom "bad-op"
 
